@@ -26,6 +26,12 @@ OBLIGATIONS = [
     "KafVerif.C28.fresh_cache_agrees_on_wellformed_snapshot",
     "KafVerif.C28.stale_name_cache_violates",
     "KafVerif.C28.old_violates",
+    "KafVerif.C28.metadata_never_forwarded",
+    "KafVerif.C28.metadata_arm_terminal",
+    "KafVerif.C28.metadata_never_opens_link",
+    "KafVerif.C28.closed_connection_is_silent",
+    "KafVerif.C28.metadata_observation",
+    "KafVerif.C28.fallthrough_forwards_metadata",
 ]
 ASSUMPTIONS = [
     "sessions: one proxy per case; its caches are filled only through the real refreshMetadataCache / currentBackends / resolveTopicID (the ops `warm`, `resolve`); the snapshot changes through InMemoryStore.Update (what the etcd watch does); state a changed proxy might build from other request kinds (Produce/Fetch/ApiVersions traffic) is not driven",
@@ -35,17 +41,22 @@ ASSUMPTIONS = [
     "topic ids: literal ids are generated with the upper 8 bytes zero; metadata.TopicIDForName (SHA-1 prefix the store assigns to a snapshot topic without id) is modelled as an injective constructor disjoint from the literal ids",
     "names/hosts are ASCII without the separators of the line protocol",
     "FindCoordinator is exercised at the advertised version 3 (and 0-2), where node/host/port are top-level fields",
+    "connection level: the dispatch model (Model/ProxyDispatch.lean) is a hand transcription of handleConnection's per-request switch, tied to the code by running the same connection scripts through the real handleConnection (net.Pipe client, scripted TCP backends, wrapped store) and the model and diffing every client-visible outcome and the backends' request log; requests arrive one at a time (no pipelining), failures are injected between requests (or inside the next store read), client writes never fail, Produce acks=0 and LFS are not driven",
 ]
 TECHNIQUE = ("Lean 4 theorems about a line-by-line model of loadMetadata/filterTopics/buildProxyMetadataResponse/"
              "handleFindCoordinator/buildNotReadyResponse; differential correspondence through the real handleMetadata "
              "byte path + the theorems' own predicates evaluated by the Lean driver on the implementation's replies; "
              "session model (current snapshot + ghost topic-name cache) with every history quantified, exercised as "
-             "sessions on one real proxy (snapshot change / real cache refresh / request)")
+             "sessions on one real proxy (snapshot change / real cache refresh / request); dispatch model of "
+             "handleConnection's per-request switch with every callee abstracted to a freely chosen outcome, exercised as "
+             "client connections through the real handleConnection with scripted backends and injected failures")
 LEVEL_TEXT = ("proof: for every snapshot, request form and advertised address the reply names only node 0 (broker list, "
               "controller, leader, replicas, ISR, coordinator) and its topic list equals the declaratively specified one "
               "(all / by name / by id) on name, id, error code, is-internal and per-partition id, error code, leader epoch; "
               "for every history of one proxy (snapshot changes, cache refreshes, earlier requests) the reply is that of the "
-              "snapshot in force and is independent of the proxy's topic-name cache")
+              "snapshot in force and is independent of the proxy's topic-name cache; for every client connection, request "
+              "sequence and outcome of every handler / store read / backend dial the Metadata and FindCoordinator arms are "
+              "terminal: answered from inside the proxy or the connection is closed, never written to or relayed from a backend")
 LEVEL_NOTE = ("the theorems are about the model (after fixes/C28-metadata-error-topic-leaders.patch; the code as found is "
               "kept as buildResponseOld with the witness old_violates); correspondence and monitor are testing; that the "
               "code's loadMetadata reads no per-proxy state is established by the session runs, not extracted from the source")
@@ -207,6 +218,108 @@ def gen_par(rng, names, tids):
     return "par " + " ".join(items)
 
 
+# requests of handleConnection's generic forward arm (api key/version) and of the group-routing arm
+RELAY = ["2/1", "19/2", "20/1", "16/0", "32/1", "23/1", "37/0", "22/0", "42/0", "33/0", "2/7", "19/5", "20/6"]
+GROUP = ["12/0", "11/0", "13/0", "14/0", "8/2", "9/1", "15/0", "12/4", "11/6", "9/8", "8/8", "15/5"]
+
+
+def gen_conn(rng, names, tids):
+    """One client connection through the real handleConnection: a backend link is opened by a relayed request (or
+    not), something fails (serving context cancelled — also from inside the next store read —, store error, body cut
+    short, link killed, proxy not ready), then Metadata / FindCoordinator arrive on the SAME connection.  The last
+    step is always an ApiVersions probe: it tells a closed connection from an open one without timing."""
+    mode = rng.choice(["static", "static", "store"])
+    live = rng.choice([1, 1, 1, 2, 3, 0])
+    dead = rng.choice([0, 0, 1, 2])
+    cached = 1 if rng.chance(1, 2) else 0
+
+    def M():
+        v, r = gen_request(rng, names, tids)
+        return "M/%d/%s" % (v, r)
+
+    def F():
+        return "F/%d" % rng.choice([3, 3, 0, 1, 2])
+
+    def R():
+        return "R/" + rng.choice(RELAY)
+
+    def fwd():
+        k = rng.below(6)
+        return R() if k <= 2 else ("G/" + rng.choice(GROUP) if k <= 4 else rng.choice(["P", "E"]))
+
+    def fail():
+        return rng.choice(["X/cancel", "X/cancel", "X/storefail", "X/storefail", "X/cancelinstore"])
+
+    def probe():
+        k = rng.below(5)
+        return M() if k <= 2 else (F() if k == 3 else "MB/%d" % rng.choice(VERSIONS))
+
+    steps = []
+    style = rng.below(10)
+    if style <= 2:      # the connection owns a backend link, something fails, then Metadata on the same connection
+        live = max(live, 1)
+        steps += [R() for _ in range(rng.range(1, 2))]
+        if rng.chance(1, 2):
+            steps.append(M())
+        if rng.chance(1, 3):
+            steps.append(fwd())
+        steps.append(fail())
+        if rng.chance(1, 3):
+            steps.append(R())           # the link keeps working after the context is gone
+        steps += [probe() for _ in range(rng.range(1, 2))]
+    elif style == 3:    # no link yet, but a backend can be dialled; the store fails
+        live = max(live, 1)
+        if mode == "store":
+            cached = 1
+        steps.append(rng.choice(["X/storefail", "X/storefail", "X/cancelinstore"]))
+        steps.append(M())
+        steps.append(fwd())
+    elif style == 4:    # Metadata body cut short
+        live = max(live, 1)
+        if rng.chance(1, 2):
+            steps.append(R())
+        if rng.chance(1, 2):
+            steps.append(M())
+        steps.append("MB/%d" % rng.choice(VERSIONS))
+        steps.append(F())
+    elif style == 5:    # the link has died (the next forward re-dials), then a failure
+        live = max(live, 1)
+        steps += [R(), "X/kill"]
+        if rng.chance(1, 2):
+            steps.append(fwd())
+        steps.append(fail())
+        steps.append(probe())
+        steps.append(R())
+    elif style == 6:    # readiness gate
+        if rng.chance(1, 2):
+            steps.append(fwd())
+        steps.append("X/notready")
+        if rng.chance(1, 2):
+            steps.append("A")
+        steps.append(probe() if rng.chance(2, 3) else fwd())
+    elif style == 7:    # store error comes and goes
+        steps += [M(), "X/storefail"]
+        if rng.chance(1, 2):
+            steps += [F(), "X/storeok", M(), R(), M()]
+        else:
+            steps += [fwd(), F(), M()]
+    elif style == 8:    # the client hangs up before reading the Metadata reply (the proxy's write fails)
+        live = max(live, 1)
+        if rng.chance(2, 3):
+            steps.append(R())
+        if rng.chance(1, 3):
+            steps.append(fail())
+        steps.append("MC" + M()[1:])
+    else:               # free mix
+        pool = [M, M, F, R, R, fwd, fail, lambda: "A", lambda: "X/kill", lambda: "X/storeok",
+                lambda: "MB/%d" % rng.choice(VERSIONS), lambda: rng.choice(["X/notready", "X/ready"])]
+        steps += [rng.choice(pool)() for _ in range(rng.range(3, 8))]
+    if live + dead == 0:
+        live = 1
+    steps.append("A")
+    return "conn mode=%s live=%d dead=%d cached=%d %s" % (mode, live, dead, cached, " ".join(steps))
+
+
 def by_id_spec(rng, ids, names=None):
     ents = []
     for t in ids:
@@ -298,11 +411,15 @@ def gen_case(rng, nreq):
     ops.append("nrmeta %d %s" % (v, r))
     ops.append("coord %d" % rng.choice([3, 3, 0, 1, 2]))
     ops.append("nrcoord %d" % rng.choice([3, 3, 0, 1, 2]))
+    # client connections through the real handleConnection loop of the same proxy (last: in store mode a backend
+    # dial refreshes the proxy's caches like `warm backends`, which the ghost cache of the monitor does not follow)
+    for _ in range(rng.choice([1, 2, 2, 3])):
+        ops.append(gen_conn(rng, names if rng.chance(2, 3) else seen_names, tids if rng.chance(2, 3) else seen_ids))
     return ops
 
 
 def is_reply_op(op):
-    return op.split()[0] in ("meta", "nrmeta", "coord", "nrcoord", "par")
+    return op.split()[0] in ("meta", "nrmeta", "coord", "nrcoord", "par", "conn")
 
 
 def run_impl(ck, binary, ops, tag):
@@ -352,6 +469,108 @@ def case_key(ops, i):
     return tuple([o for o in ctx[:-1] if not is_reply_op(o)] + [ctx[-1]])
 
 
+def conn_parts(op, line):
+    """(steps, outcomes per step, backend log entries) of a `conn` op and its output line, or None."""
+    steps = op.split()[5:]
+    if not line.startswith("conn "):
+        return None
+    outs = [o.strip() for o in line[5:].split(" ;; ")]
+    if len(outs) != len(steps) + 1 or not outs[-1].startswith("log="):
+        return None
+    log = outs[-1][4:]
+    return steps, outs[:-1], ([] if log == "-" else log.split(","))
+
+
+def conn_direct(ctx, op, line):
+    """The property on one client connection, judged directly on what the client and the scripted backends saw
+    (independent of the Lean model): every Metadata / FindCoordinator reply names only the proxy's advertised address
+    and node 0 (or is a not-ready reply that names nobody), or the connection was closed; no backend ever received a
+    Metadata (3) / FindCoordinator (10) request.  Returns a list of (fingerprint, detail)."""
+    cfg = ctx[0].split()
+    host, port = cfg[1], cfg[2]
+    parts = conn_parts(op, line)
+    if parts is None:
+        return [("conn-unparsable-reply", line[:200])]
+    steps, outs, log = parts
+    bad = []
+    for i, (st, out) in enumerate(zip(steps, outs)):
+        kind = st.split("/")[0]
+        if kind not in ("M", "MB", "F") or out == "closed":
+            if kind == "MC" and out not in ("hangup", "closed"):
+                bad.append(("conn-unexpected-outcome", "step %d %s -> %s" % (i, st, out)))
+            continue
+        kv = dict(w.split("=", 1) for w in out.split()[1:] if "=" in w)
+        if "backend-" in out:
+            bad.append(("conn-reply-from-backend", "step %d %s -> %s" % (i, st, out)))
+        elif out.startswith("meta "):
+            leaders_ok = True
+            if kv.get("topics", "-") != "-":
+                for t in kv["topics"].split(";"):
+                    ps = t.split("|")[4]
+                    for p in ([] if ps == "-" else ps.split(",")):
+                        f = p.split(":")
+                        leaders_ok &= f[2] == "0" and f[4] == "0" and f[5] == "0" and f[6] == "-"
+            if not (kv.get("brokers") in ("-", "0:%s:%s" % (host, port)) and leaders_ok):
+                bad.append(("conn-names-non-proxy-broker", "step %d %s -> %s" % (i, st, out)))
+        elif out.startswith("coord "):
+            if not ((kv.get("node") == "0" and kv.get("host") == host and kv.get("port") == port) or kv.get("node") == "-1"):
+                bad.append(("conn-coordinator-not-proxy", "step %d %s -> %s" % (i, st, out)))
+        else:
+            bad.append(("conn-unexpected-outcome", "step %d %s -> %s" % (i, st, out)))
+    for e in log:
+        k, _, corr = e.partition(":")
+        if k in ("3", "10", "unparsable"):
+            i = int(corr) - 1000 if corr.lstrip("-").isdigit() else -1
+            bad.append(("conn-metadata-sent-to-backend", "backend received api key %s for client request %s (%s)" % (
+                k, corr, steps[i] if 0 <= i < len(steps) else "?")))
+    return bad
+
+
+def conn_same(op, impl_line, model_line):
+    """Correspondence on one client connection, on the property-relevant observables only: the client-visible outcome
+    of every step.  Where the model closes the connection on a Metadata / FindCoordinator request and the implementation
+    sends a not-ready reply that names nobody instead, the two are equivalent for C28 (the rest of that connection is
+    then not compared).  The backends' request log is judged by the monitor, not diffed."""
+    a, b = conn_parts(op, impl_line), conn_parts(op, model_line)
+    if a is None or b is None:
+        return impl_line == model_line
+    for st, x, y in zip(a[0], a[1], b[1]):
+        if x == y:
+            continue
+        if st.split("/")[0] in ("M", "MB", "F") and y == "closed" and (
+                (x.startswith("meta brokers=- ctrl=-1 ") and "backend-" not in x) or x.startswith("coord err=7 node=-1 ")):
+            return True
+        return False
+    return True
+
+
+def examine_conn(ck, ctx, op, line, model_line):
+    """Coverage counters + the direct monitor for one client connection."""
+    parts = conn_parts(op, line)
+    if parts is not None:
+        steps, outs, log = parts
+        failed = linked = closed = False
+        for st, out in zip(steps, outs):
+            k = st.split("/")[0]
+            ck.count("conn_step_" + (st if k == "X" else k))
+            if not closed and k in ("M", "MB", "MC", "F"):
+                o = out.split()[0]
+                ck.count("conn_meta_outcome_" + o)
+                if failed or k == "MB":
+                    ck.count("conn_meta_after_failure" + ("_with_backend_link" if linked else "_no_link"))
+            if k == "X" and st.split("/")[1] in ("cancel", "cancelinstore", "storefail", "notready"):
+                failed = True
+            if k == "R" and out == "relay":
+                linked = True
+            closed = closed or out in ("closed", "hangup")
+        ck.count("conn_backend_requests", len(log))
+    for fp, detail in conn_direct(ctx, op, line):
+        ck.violation(fp, "client connection breaks C28 (%s): %s" % (fp, detail),
+                     {"ops": ctx, "expected": "Metadata / FindCoordinator are answered by the proxy itself (naming only the "
+                      "proxy) or the connection is closed; the backends never see them",
+                      "actual": line, "model": model_line})
+
+
 def examine(ck, ops, impl, model, verdicts, hunting=False):
     """Registers cases, reports violations; returns index of first pure correspondence diff or None."""
     first = None
@@ -368,7 +587,11 @@ def examine(ck, ops, impl, model, verdicts, hunting=False):
             form = r if r in ("all", "empty") else ("by-id" if any(not e.endswith("@0") for e in r.split(",")) else "by-name")
             ck.count("req_" + form)
         ctx = context_ops(ops, i)
+        if kind == "conn":
+            examine_conn(ck, ctx, o, impl[i], model[i] if model else None)
         nontriv = kind in ("meta", "par") and "topics=-" not in impl[i] and impl[i].startswith(kind + " ")
+        if kind == "conn":
+            nontriv = any(st.split("/")[0] in ("M", "MB", "MC", "F") for st in o.split()[5:]) and impl[i].startswith("conn ")
         ck.case(case_key(ops, i), nontrivial=nontriv, sample={"ops": ctx, "impl": impl[i]})
         state = [o.split()[0] for o in ctx[:-1] if o.split()[0] in ("snap", "warm", "resolve")]
         if kind in ("meta", "par") and ("warm" in state or "resolve" in state):
@@ -388,6 +611,9 @@ def examine(ck, ops, impl, model, verdicts, hunting=False):
                          {"ops": ctx, "expected": "monitor predicates of KafVerif.Props.C28 hold on the reply",
                           "actual": impl[i], "model": model[i] if model else None})
         elif model is not None and impl[i] != model[i] and first is None:
+            if kind == "conn" and conn_same(o, impl[i], model[i]):
+                ck.count("conn_equivalent_modulo_log_or_error_reply")
+                continue
             first = i
     return first
 
@@ -405,7 +631,12 @@ def run(ck):
                       "by name / by id / mixed at Metadata versions 0-12, not-ready Metadata, FindCoordinator, and batches of "
                       "2-4 OVERLAPPING Metadata requests (store read gated until all are in flight); every reply is checked against "
                       "its own request and the snapshot in force when it was issued; a case is non-trivial when the reply lists at "
-                      "least one topic; distinct = distinct (cfg, snapshot/refresh history, request)")
+                      "least one topic; distinct = distinct (cfg, snapshot/refresh history, request); each session ends with 1-3 "
+                      "CLIENT CONNECTIONS through the real handleConnection (scripted TCP backends that answer Metadata/FindCoordinator "
+                      "naming themselves; static / store-derived / cached backend lists, live and dead addresses): relayed request(s) -> "
+                      "failure (context cancelled, also inside the next store read / store error / body cut short / link killed / not "
+                      "ready) -> Metadata / FindCoordinator on the same connection, and the same without a prior link; every client-visible "
+                      "outcome and the backends' request log are diffed against the dispatch model and judged by the monitor")
     ops = []
     import glob, os
     for f in sorted(glob.glob(os.path.join(lib.REPLAYS, "C28-*.json"))):   # corpus first
